@@ -26,7 +26,10 @@ RULE = ('valid corpus = generated fragments and rules + all 731 shipped '
         'deep inputs (chains of 50-400 atoms / constraints). Non-trivial = a '
         'text whose outcome was classified under the step monitor; distinct '
         'by text. bounded time = 5000 + 400*len(text) logical steps '
-        '(function entries + jumps inside pgradd.RINGParser / RDkitWrapper).')
+        '(function entries + jumps inside pgradd.RINGParser / RDkitWrapper).'
+        ' '
+        'Round 17: ~60 valid, truncated and mutated texts read from four'
+        ' threads at once, outcome equal to the lone read.')
 ASSUMPTIONS = [
     'the step budget is >= 10x the largest count seen on valid input of the '
     'same length (calibration reported as max_steps_per_char)',
